@@ -346,7 +346,10 @@ class MetaFamily(Family):
         class TEv(Interval):
             tag: int | None = None
         kwargs = {} if case["kw"] == "absent" else {"tag": case["kw"]}
-        res = m.add(TEv(start=0, end=10, tag=case["item"]), **kwargs)
+        mine = TEv(start=0, end=10, tag=case["item"])
+        res = m.add(mine, **kwargs)
+        if mine != TEv(start=0, end=10, tag=case["item"]):
+            return {"err": "add() modified the interval object it was given"}
         stored = list(m[0:10])
         if len(stored) != 1 or not res[0].success:
             return {"err": "unexpected"}
